@@ -168,6 +168,61 @@ def execute(case):
     return out, world, peer, record, (gconn[0] if gconn else None)
 
 
+def run_thread_pair(case) -> dict:
+    """{"pair": [caseA, caseB], "policy": ...}: two caller threads of one process run two handshakes (raw sync client) against two
+    servers that play different scripts - typically one that advertises header signing and one that does not; each conversation
+    is judged on its own with the same clauses as a single one."""
+    import dpapi_ng._rpc as rpc
+
+    from checks import plan as P
+    from simworld import threads as simthreads
+
+    ca, cb = case["pair"]
+    world = W.World(case.get("seed", 0))
+    world.default_delivery = {"mode": "rand", "seed": case.get("seed", 0) & 0xFFFF, "bias": "header"}
+    hosts = ("dca.domain.test", "dcb.domain.test")
+    peers_ = [HandshakePeer(c["script"], c["cfg"]) for c in (ca, cb)]
+    records: t.Dict[str, list] = {h: [] for h in hosts}
+    cfgs = {hosts[0]: ca["cfg"], hosts[1]: cb["cfg"]}
+    for h, p in zip(hosts, peers_):
+        world.add_route(h, GKDI_PORT, p)
+    ctxs = _contexts()
+
+    def factory(username=None, password=None, hostname="unspecified", service="host", protocol="negotiate", **kw):
+        records[hostname].append(("new", username, hostname, service, protocol))
+        return secctx.StubCtx(cfgs[hostname], drive.SECRET, records[hostname])
+
+    def work(h):
+        def run():
+            def go():
+                with rpc.create_rpc_connection(h, GKDI_PORT, auth_protocol="negotiate") as c:
+                    c.bind(ctxs)
+                    return c.request(0, 0, b"\xAA" * 13)
+
+            return drive.classify(go)
+
+        return run
+
+    tsim = simthreads.ThreadSim(random.Random(case.get("seed", 0) ^ 0xC15), P.SRC_PREFIX(), case["policy"])
+    with world.installed(ctx_factory=factory):
+        try:
+            res = tsim.run([work(h) for h in hosts])
+        except simthreads.Wedged as e:
+            raise common.HarnessError(str(e))
+    viol = None
+    probes: t.Dict[str, int] = {"thread_pairs": 1, "thread_overlap": tsim.overlap}
+    for k, (c, h, p) in enumerate(zip((ca, cb), hosts, peers_)):
+        out = res[k][0] if res[k][0] is not None else drive.Outcome("raise", exc=RuntimeError(repr(res[k][1])))
+        conn = next((x for x in world.conns if x.host == h), None)
+        v, pr = judge(dict(c, flavour="sync", api="raw"), out, world, p, records[h], conn)
+        for kk, vv in pr.items():
+            probes[kk] = probes.get(kk, 0) + vv
+        if v and not viol:
+            viol = {"sig": v["sig"].replace("C15/", "C15/threads/", 1), "detail": f"conversation {'AB'[k]} of two running at once in caller threads: " + v["detail"]}
+    return {"viol": viol, "digest": world.digest(), "key": common.key_hash(case), "sched_key": common.key_hash(tsim.switches) if tsim.switches else None,
+            "fired": {"thread_preemptions": len(tsim.switches)}, "probes": probes, "vtime_ns": 0, "_script": tsim.script()}
+
+
 def judge(case, out, world, peer, record, conn) -> t.Tuple[t.Optional[dict], dict]:
     fl = case["flavour"]
     cfg = case["cfg"]
@@ -255,9 +310,13 @@ def judge(case, out, world, peer, record, conn) -> t.Tuple[t.Optional[dict], dic
         return V("d", "duplicate-request", "more than one request"), probes
     # (e) header signing iff both sides advertised it (client always does); mixed flags: not judged
     flags = [a[1][3] for a in acks]
-    if wraps and flags and len(set(flags)) == 1 and all(a[1][1] == "pos" for a in acks):
+    first_lacks_it = bool(flags) and not flags[0] and any(flags) and acks[0][1][1] == "pos"
+    if first_lacks_it:
+        probes["hs_first_ack_without_flag_later_with"] = 1
+    if wraps and flags and ((len(set(flags)) == 1 and all(a[1][1] == "pos" for a in acks)) or first_lacks_it):
         import spnego.iov as siov
 
+        # (bind_ack without the flag, a later ack with it: the client no longer advertises on its alter_context, so nothing was agreed)
         want = bool(flags[0])
         for wcall in wraps + unwraps:
             got = wcall[1][0][0] == int(siov.BufferType.sign_only)
@@ -509,7 +568,7 @@ class C15(common.Check):
                    "an alter_context_resp answering a bind (and vice versa) is recorded, not judged",
                    "context results inside alter_context_resp are recorded, not judged"]
     required_fired = ("terminal_nak", "terminal_fault", "terminal_eof", "terminal_request", "hs_on", "hs_off", "conforming_success",
-                      "real_success", "real_ntlm", "real_negotiate", "real_terminal_nak", "real_terminal_eof", "bind_ack_answers_alter_context")
+                      "real_success", "real_ntlm", "real_negotiate", "real_terminal_nak", "real_terminal_eof", "bind_ack_answers_alter_context", "thread_pairs", "thread_overlap", "hs_first_ack_without_flag_later_with")
 
     def exhaustive(self, tier):
         return True
@@ -535,6 +594,16 @@ class C15(common.Check):
                             tails = req_replies if depth == k else [t_ for t_ in TERMINALS if t_ != ["response"]] + [["response"]]
                             for tail in tails:
                                 out.append({"cfg": cfg, "script": list(prefix) + [tail], "flavour": fl, "api": api, "seed": len(out)})
+        # two handshakes at once from caller threads (one server advertises header signing, the other does not; 2 and 3 legs)
+        from checks import threadpure
+
+        rngp = prng.stream(seed, "C15", "pairs")
+        for k in range(300 if tier == "quick" else 12000):
+            legs_a, legs_b = rngp.choice((2, 3)), rngp.choice((2, 3))
+            mk = lambda legs, hs: {"cfg": {"legs": legs, "empty_last": False, "sig": rngp.choice((16, 28))},  # noqa: E731
+                                   "script": [["ack", "pos", "AN", hs, "tok"] for _ in range(legs)] + [["response"]]}
+            out.append({"pair": [mk(legs_a, k % 2), mk(legs_b, 1 - k % 2)], "seed": rngp.getrandbits(30),
+                        "policy": {"mode": "marks", "q": (0.3, 0.6, 0.9)[k % 3], "p": (0.0, 0.02)[(k // 3) % 2]} if k % 3 else threadpure.policy_for(k)})
         # real pyspnego contexts (NTLM: 2 legs, Negotiate->NTLM: 3 legs) against a real acceptor, conforming and cut short
         for real in ("ntlm", "negotiate"):
             for fl in ("sync", "async"):
@@ -565,6 +634,8 @@ class C15(common.Check):
         return out
 
     def run_case(self, case):
+        if "pair" in case:
+            return run_thread_pair(case)
         if "real" in case:
             return run_real(case)
         out, world, peer, record, conn = execute(case)
@@ -575,6 +646,20 @@ class C15(common.Check):
                 "vtime_ns": world.stats.get("vtime_ns", 0)}
 
     def shrink(self, case):
+        if "pair" in case:
+            pol = case["policy"]
+            if pol.get("mode") != "script":
+                sc = run_thread_pair(case).get("_script")
+                if sc:
+                    yield dict(case, policy=sc)
+            else:
+                sw = pol["switches"]
+                if len(sw) > 2:
+                    yield dict(case, policy=dict(pol, switches=sw[: len(sw) // 2]))
+                    yield dict(case, policy=dict(pol, switches=sw[len(sw) // 2 :]))
+                for k in range(min(len(sw), 40)):
+                    yield dict(case, policy=dict(pol, switches=sw[:k] + sw[k + 1 :]))
+            return
         if "real" in case:
             if case["flavour"] == "async":
                 yield dict(case, flavour="sync")
